@@ -326,6 +326,58 @@ Proof.
   - apply bp_pow2_nz.
 Qed.
 
+Lemma bp_in_row p r s w i : p = 64 * r + s -> s + w <= 64 ->
+  (p <=? i) && (i <? p + w) = (i / 64 =? r) && ((s <=? i mod 64) && (i mod 64 <? s + w)).
+Proof.
+  intros Ep Hs. pose proof (N.div_mod i 64 ltac:(discriminate)) as D.
+  pose proof (N.mod_lt i 64 ltac:(discriminate)) as L.
+  revert D L. generalize (i / 64) as q, (i mod 64) as t. intros q t D L. subst p i.
+  destruct (N.eqb_spec q r) as [->|Hne].
+  - destruct (N.leb_spec (64 * r + s) (64 * r + t)), (N.ltb_spec (64 * r + t) (64 * r + s + w)),
+      (N.leb_spec s t), (N.ltb_spec t (s + w)); cbn [andb]; try reflexivity; exfalso; lia.
+  - destruct (N.leb_spec (64 * r + s) (64 * q + t)), (N.ltb_spec (64 * q + t) (64 * r + s + w));
+      cbn [andb]; try reflexivity; exfalso; lia.
+Qed.
+
+Lemma bp_toggle_rows_true rows di nr : Forall (fun r => r < W64) rows -> (di + nr <= length rows)%nat ->
+  let p := 64 * N.of_nat di in let w := 64 * N.of_nat nr in
+  match toggle_rows rows di nr true with
+  | Some rows' =>
+      length rows' = length rows /\ Forall (fun r => r < W64) rows' /\
+      (forall i, p <= i < p + w -> N.testbit (rows_bits rows) i = true) /\
+      (forall i, N.testbit (rows_bits rows') i = N.testbit (rows_bits rows) i && negb ((p <=? i) && (i <? p + w)))
+  | None => ~ (forall i, p <= i < p + w -> N.testbit (rows_bits rows) i = true)
+  end.
+Proof.
+  intros Hf Hlen p w. subst p w.
+  destruct (toggle_rows rows di nr true) as [rows'|] eqn:T.
+  - apply bp_toggle_rows_some in T. destruct T as (Hl' & Hold & Hnew).
+    assert (Hf' : Forall (fun r => r < W64) rows').
+    { apply bp_Forall_nth. intros j x Hj. rewrite Hnew in Hj.
+      destruct ((di <=? j)%nat && (j <? di + nr)%nat).
+      - injection Hj as <-. reflexivity.
+      - exact (bp_Forall_nth_inv _ _ _ _ Hf Hj). }
+    split; [exact Hl'|]. split; [exact Hf'|]. split.
+    + intros i Hi. dm64 i. rewrite bp_rows_bits_testbit by assumption.
+      rewrite Hold by (unfold nn; lia). rewrite MAX64_ones. apply N.ones_spec_low. assumption.
+    + intros i. dm64 i. rewrite !bp_rows_bits_testbit by assumption. rewrite Hnew.
+      destruct (Nat.leb_spec di (nn (i / 64))), (Nat.ltb_spec (nn (i / 64)) (di + nr)),
+        (N.leb_spec (64 * N.of_nat di) i), (N.ltb_spec i (64 * N.of_nat di + 64 * N.of_nat nr)); cbn [andb negb];
+        try (exfalso; unfold nn in *; lia).
+      all: try (rewrite N.bits_0, andb_false_r; reflexivity); try (rewrite andb_true_r; reflexivity).
+  - intros Hall.
+    destruct (bp_toggle_rows_complete true nr rows di) as (rows' & T'); [|congruence].
+    intros j Hj. destruct (nth_error rows j) as [v|] eqn:Ev.
+    2:{ apply nth_error_None in Ev. lia. }
+    f_equal. rewrite MAX64_ones. apply bp_eq_ones.
+    + rewrite <- W64_pow. exact (bp_Forall_nth_inv _ _ _ _ Hf Ev).
+    + intros t Ht. specialize (Hall (64 * N.of_nat j + t)).
+      rewrite bp_rows_bits_testbit in Hall by assumption.
+      destruct (bp_div64 (N.of_nat j) t Ht) as (E1 & E2). rewrite E1, E2 in Hall.
+      replace (nn (N.of_nat j)) with j in Hall by (unfold nn; lia).
+      rewrite Ev in Hall. apply Hall. lia.
+Qed.
+
 Section Toggle.
   Variable g : geom.
   Hypothesis WF : wf_geom g.
@@ -366,18 +418,18 @@ Section Toggle.
     set (w := pow2 k) in *.
     assert (Ep : p = 64 * r + s) by (rewrite Er, Eb; apply N.div_mod; discriminate).
     assert (Hs : s < 64) by (apply N.mod_lt; discriminate).
+    clearbody r s p w. clear Er Eb Ha.
     rewrite (bp_ROWS_nat g WF), <- Hl in Hr.
     unfold row_at. destruct (nth_error rows (nn r)) as [e|] eqn:He.
     2:{ apply nth_error_None in He. unfold nn in He. lia. }
     assert (Hrow : forall i, i / 64 = r -> N.testbit (rows_bits rows) i = N.testbit e (i mod 64)).
     { intros i Hi. rewrite bp_rows_bits_testbit by assumption. rewrite Hi, He. reflexivity. }
     assert (Hin : forall i, (p <=? i) && (i <? p + w) = (i / 64 =? r) && ((s <=? i mod 64) && (i mod 64 <? s + w))).
-    { intros i. dm64 i. destruct (N.leb_spec p i), (N.ltb_spec i (p + w)), (N.eqb_spec (i / 64) r),
-        (N.leb_spec s (i mod 64)), (N.ltb_spec (i mod 64) (s + w)); cbn [andb]; try reflexivity; exfalso; lia. }
+    { intros i. apply bp_in_row; assumption. }
     destruct (N.land e (mask64 w s) =? mask64 w s) eqn:C.
     - pose proof (proj1 (bp_land_eq_mask _ _) C) as Hm. cbn [toggle_true_post].
       assert (He' : N.land e (not64 (mask64 w s)) < W64).
-      { apply bp_land_lt. eapply bp_Forall_nth_inv; eassumption. }
+      { apply bp_land_lt. exact (bp_Forall_nth_inv _ _ _ _ Hf He). }
       split; [|split].
       + split; [rewrite upd_length; exact Hl | apply bp_Forall_upd; assumption].
       + intros i Hi. assert (T := Hin i).
@@ -404,50 +456,24 @@ Section Toggle.
   Proof.
     intros (Hl & Hf) Hk Hkh Ha. unfold bf_toggle.
     destruct (Nat.leb_spec k 6) as [|_]; [lia|].
-    pose proof (bp_pos_row f) as Er. pose proof (bp_pos_bit f) as Eb.
-    rewrite (bp_mod64_of_aligned f k) in Eb by (lia || assumption).
-    destruct (bp_aligned_fit k (hord g) f Hkh Ha) as (_ & Hfit). rewrite <- bp_HF_pow2 in Hfit.
+    assert (Ep : f mod HF g = 64 * N.of_nat (nn ((f / 64) mod ROWS g))).
+    { unfold nn. rewrite N2Nat.id, bp_pos_row.
+      pose proof (N.div_mod (f mod HF g) 64 ltac:(discriminate)) as D.
+      rewrite <- bp_pos_bit, (bp_mod64_of_aligned f k) in D by (lia || assumption).
+      revert D. generalize (f mod HF g / 64) (f mod HF g). intros; lia. }
     assert (Ew : pow2 k = 64 * N.of_nat (Nat.pow 2 (k - 6))).
     { rewrite bp_of_nat_pow2. rewrite (bp_pow2_split 6 k) by lia. reflexivity. }
-    rewrite (bp_HF_rows_nat g WF), <- Hl in Hfit.
-    set (di := (f / 64) mod ROWS g) in *. set (p := f mod HF g) in *.
-    set (nr := Nat.pow 2 (k - 6)) in *. rewrite Ew in *. clear Ew.
-    assert (Ep : p = 64 * di).
-    { pose proof (N.div_mod p 64 ltac:(discriminate)). lia. }
-    destruct (toggle_rows rows (nn di) nr true) as [rows'|] eqn:T; cbn [toggle_true_post].
-    - apply bp_toggle_rows_some in T. destruct T as (Hl' & Hold & Hnew).
-      split; [|split].
-      + split; [congruence|]. apply bp_Forall_nth. intros j x Hj. rewrite Hnew in Hj.
-        destruct ((nn di <=? j)%nat && (j <? nn di + nr)%nat).
-        * injection Hj as <-. reflexivity.
-        * eapply bp_Forall_nth_inv; eassumption.
-      + intros i Hi. dm64 i. rewrite bp_rows_bits_testbit by assumption.
-        rewrite Hold by (unfold nn; lia). rewrite MAX64_ones. apply N.ones_spec_low.
-        apply N.mod_lt; discriminate.
-      + intros i. dm64 i. rewrite !bp_rows_bits_testbit; [|assumption|].
-        2:{ apply bp_Forall_nth. intros j x Hj. rewrite Hnew in Hj.
-            destruct ((nn di <=? j)%nat && (j <? nn di + nr)%nat).
-            - injection Hj as <-. reflexivity.
-            - eapply bp_Forall_nth_inv; eassumption. }
-        rewrite Hnew.
-        destruct (Nat.leb_spec (nn di) (nn (i / 64))), (Nat.ltb_spec (nn (i / 64)) (nn di + nr)),
-          (N.leb_spec p i), (N.ltb_spec i (p + 64 * N.of_nat nr)); cbn [andb negb];
-          try (exfalso; unfold nn in *; lia).
-        * rewrite N.bits_0, andb_false_r. reflexivity.
-        * rewrite andb_true_r. reflexivity.
-        * rewrite andb_true_r. reflexivity.
-        * rewrite andb_true_r. reflexivity.
-    - intros Hall.
-      destruct (bp_toggle_rows_complete true nr rows (nn di)) as (rows' & T'); [|congruence].
-      intros j Hj. destruct (nth_error rows j) as [v|] eqn:Ev.
-      2:{ apply nth_error_None in Ev. unfold nn in *. lia. }
-      f_equal. rewrite MAX64_ones. apply bp_eq_ones.
-      + rewrite <- W64_pow. eapply bp_Forall_nth_inv; eassumption.
-      + intros t Ht. specialize (Hall (64 * N.of_nat j + t)).
-        rewrite bp_rows_bits_testbit in Hall by assumption.
-        destruct (bp_div64 (N.of_nat j) t Ht) as (E1 & E2). rewrite E1, E2 in Hall.
-        replace (nn (N.of_nat j)) with j in Hall by (unfold nn; lia).
-        rewrite Ev in Hall. apply Hall. unfold nn in *. lia.
+    assert (Hfit : (nn ((f / 64) mod ROWS g) + Nat.pow 2 (k - 6) <= length rows)%nat).
+    { destruct (bp_aligned_fit k (hord g) f Hkh Ha) as (_ & Hfit). rewrite <- bp_HF_pow2 in Hfit.
+      rewrite Ep, Ew in Hfit. rewrite (bp_HF_rows_nat g WF), <- Hl in Hfit.
+      revert Hfit. generalize (nn ((f / 64) mod ROWS g)) (Nat.pow 2 (k - 6)) (length rows). intros; lia. }
+    rewrite Ep, Ew.
+    pose proof (bp_toggle_rows_true rows _ _ Hf Hfit) as P. cbv zeta in P.
+    revert P. generalize (nn ((f / 64) mod ROWS g)) (Nat.pow 2 (k - 6)). intros di nr P.
+    destruct (toggle_rows rows di nr true) as [rows'|]; cbn [toggle_true_post].
+    - destruct P as (P1 & P2 & P3 & P4). split; [|split]; try assumption.
+      split; [congruence | assumption].
+    - exact P.
   Qed.
 
   Lemma bp_toggle_true rows f k : rows_ok g rows -> (k <= hord g)%nat -> f mod pow2 k = 0 ->
